@@ -13,7 +13,7 @@ CHECKS = {
         "run as one unit and one top-level statement at a time in a twin context; if the unit runs without error the stepwise run must be accepted, "
         "error-free and print the same. (c) programs and host stores that try to change the major type of a '$' variable or an active for/forall "
         "iterator (literals, opaque function results, inside loops/handlers, '$' iterators, nested reuse of an iterator) run under a step-hook monitor "
-        "that records every constrained symbol's type at every statement boundary.",
+        "that records every constrained symbol's type at every statement boundary. Added later: (d) structure sub-check (14 writer statements x 12 reader expressions: static type vs value after an accepted or refused write into a container), (e) opaque re-assignment units that must compile, run and equal their stepwise run, (f) a symbol-type-vs-value monitor on every twin dump, (g) stdin readers (read/readln into typed variables) run by the bloc binary.",
    note="trusted: harness type serialisation; opaque static types (undefined, structure-less tuple, table of undefined) only constrain what they state; "
         "user functions' declared types are not relied upon; 6 families of known findings (numeric built-ins/operators whose static type ignores null or complex operands)",
    design="4/C02"),
@@ -44,7 +44,7 @@ CHECKS = {
         "opaque variable, function result, table element, tuple item) is executed by the real interpreter in five forms (eval twice, a 3-iteration "
         "loop with a loop-dependent sibling operand on either side, if and while condition), in a fresh context and in a shared long-lived context, "
         "and compared with the Kleene tables; relational operators over five operand types with every kind of null must yield null. The finite "
-        "space is enumerated completely on every run.",
+        "space is enumerated completely on every run. Also: every operand as a bare if / elsif / while condition (variable assigned in the body, function result) and `matches` among the relational operators of strings.",
    note="trusted: the 15-line Kleene model, the harness dump; truth values of relational operators on non-null operands are not asserted (outside the statement)",
    design="4/C04"),
  "C05": dict(
@@ -64,7 +64,7 @@ CHECKS = {
         "interpreter on 8-bit-clean byte strings (empty, blank, NUL/high bytes, 1022-1025 bytes, numeric-looking text) with positions/counts from a "
         "boundary lattice and typed/untyped nulls; results are judged by conservative sub-oracles (exact slice in the documented domain, otherwise "
         "'BLOC error or contiguous part of the argument'; b64, int/str, num/str round trips; isnum<=>num; OUT_OF_RANGE for codes outside 0..255; "
-        "DJB hash), argument variables are dumped after each call batch and must be unchanged, ASan+UBSan watch for out-of-bounds reads.",
+        "DJB hash), argument variables are dumped after each call batch and must be unchanged, ASan+UBSan watch for out-of-bounds reads. Also: the slicing/trim/case/base64/hash built-ins on temporaries, chr() of decimals, padding and bucket-range oracles for hex/hash.",
    note="trusted: python bytes semantics as reference; results for negative/oversized positions are only required to be a BLOC error or a contiguous part "
         "of the input (manual is one line per builtin); known findings: num(str(d))/isnum(str(d)) for subnormal d",
    design="4/C10"),
@@ -76,7 +76,7 @@ CHECKS = {
         "operator replacements, unbalancing insertions) and kept when the parser rejects it; through Parser::parse and bloc_parse_executable. The dump "
         "of the context after the rejection (values, types, tuple declarations, safety/lock flags, every function's signature and unparsed body, control "
         "depth, exec level, stop flags, pending symbol backups) must equal the dump before, and a generated probe (calls every function, loops, "
-        "handlers) must be accepted, behave and leave the same state as in a twin context that never saw the rejected text.",
+        "handlers) must be accepted, behave and leave the same state as in a twin context that never saw the rejected text. Also: a statement-at-a-time route (single refused statements after a prefix that redefines a function), tuple variables and constrained variables re-typed by the refused text, and refused `include` statements whose source redefines functions.",
    note="trusted: harness dump; names introduced only by the rejected text are projected out; interactive statement-at-a-time delivery of R is not used "
         "(valid leading statements would legitimately execute)",
    design="4/C11"),
@@ -87,7 +87,7 @@ CHECKS = {
         ".5, 16/17-digit decimals, DBL_MAX/denormal, typed nulls, constructors), every statement form (chained statements, for step/asc/desc, forall, "
         "typed declarations, handlers, functions with typed parameters and overloads, returns), generated programs (loops/errors/functions) and the "
         "repository's own texts. For each: compile, take Executable::unparse and the `save` rendering, compile each in a fresh context (must be "
-        "accepted), re-render (must equal), run original and reloaded in fresh contexts and compare output, error, returned value and final variables.",
+        "accepted), re-render (must equal), run original and reloaded in fresh contexts and compare output, error, returned value and final variables. Also: every statement form as head of a `,` chain.",
    note="trusted: harness reproduces the save rendering of apps/cli_parser.cpp; texts whose output is not a function of the text (random, getsys, getenv) are excluded",
    design="4/C12"),
  "C13": dict(
@@ -97,7 +97,7 @@ CHECKS = {
         "is compared between whole-line delivery and a custom StreamReader cutting at every single byte position, at random multi-splits and at fixed "
         "fragment sizes (1..2048); compiled programs are compared (acceptance, error position, unparse text, output) for sampled deliveries; every "
         "lexeme kind is slid across offsets 1010..1031 of a long line (the scanner's 1023-byte read) with padding and with statement filler, the long "
-        "line is compared with the one-statement-per-line layout of the same tokens, and CRLF vs LF through the built-in reader.",
+        "line is compared with the one-statement-per-line layout of the same tokens, and CRLF vs LF through the built-in reader. Also: the reader behind `include`, CRLF vs LF for tokens spanning physical lines, and multi-line literals whose printed value follows from the text.",
    note="trusted: the custom reader strips CR like the built-in readers; the committed generated scanner lex._tokenizer.c is what is observed",
    design="4/C13"),
  "C16": dict(
@@ -109,7 +109,7 @@ CHECKS = {
         "(vmod, VMOD, Vmod) for the observer module vmod and for the real csv module, through Parser::parse and the C API, in the context and in a "
         "clone of it; plus import by path and include in every position. Decision function allowed = trusted or granted at compile time, compared "
         "with the create-event log (phase-marked) and the object values found in the dumps; allowed cases must really create (the check cannot pass "
-        "by refusing everything).",
+        "by refusing everything). Also: the trust flag established by 0..3 trusted() calls, clones of allowed contexts, parenthesised/concatenated import paths.",
    note="trusted: vmod observer built from /verif/vmod against the working tree; a typed null (x:vmod) is not an object; upper/mixed-case spellings are not module names at all",
    design="4/C16"),
  "C15": dict(
@@ -120,7 +120,7 @@ CHECKS = {
         "model predicts each reply: accessors succeed exactly on the matching type with NULL data for nulls, stored values are what scripts see "
         "(typeof, equality) and script values are what the host loads (deep dump through the API only), failed parse/run return NULL/false with "
         "errno/strerror set, stop condition semantics, clone/execute2 behaviour, reads never consume variables; library-owned pointers are re-read "
-        "after interleaved non-invalidating calls; LeakSanitizer is invoked after each rejected text (leak attributed to that text) and at exit.",
+        "after interleaved non-invalidating calls; LeakSanitizer is invoked after each rejected text (leak attributed to that text) and at exit. Also: tables of tuples through the typed accessors, in-place assignment through library-owned pointers followed by reads, returned values the host never takes.",
    note="trusted: gcc LeakSanitizer; expressions are terminated by a newline as tests/test_c_api.c does (bloc_parse_expression needs a terminator); errno 0 accepted for "
         "the end-of-input parse error; after store_variable the caller's value is only freed",
    design="4/C15"),
@@ -133,7 +133,7 @@ CHECKS = {
         "demands: predicted number/order of constructor evaluations, no destroy in a phase where the model still reaches the object, every probe "
         "reaches exactly the predicted object, no method on a dead or foreign-module object, no second destroy, every created object destroyed once "
         "by the end, and exact argument values for typed methods. Half of the shards run in tombstone mode (stale use is recorded), half really free "
-        "so that ASan sees use-after-free/double free itself.",
+        "so that ASan sees use-after-free/double free itself. Also: assignments through forall iterators, forall over temporary tables, null-table receivers, and a clone that only reads the object variables it inherited (probes verified in clone and original).",
    note="trusted: the model predicts constructor evaluation order; only 'too early' and the final balance are asserted (temporaries and function locals are released lazily)",
    design="4/C17"),
  "C19": dict(
@@ -143,7 +143,7 @@ CHECKS = {
         "source byte value 1..255 are run as `bloc file args`, `bloc - args` (stdin) with and without --out=; stdout/out-file bytes, the rendering "
         "of the returned value, exit status == 0 iff compiled and ran without unhandled error, non-empty stderr with the library's line:column for "
         "compile errors are compared with the library run. `bloc -e expr` is compared with evaluating the expression in the library. Programs fed to "
-        "`bloc -i` on stdin are compared by marker lines, and `save` of the session is reloaded through `bloc file`.",
+        "`bloc -i` on stdin are compared by marker lines, and `save` of the session is reloaded through `bloc file`. Also: MS-DOS formatted sources, interactive programs with several statements per line, and fixed interactive sessions (recovery after a failing loop header; save / clear / load / run).",
    note="trusted: harness rendering of returned values mirrors the documented CLI format (cliRender); interactive mode is only fed generated programs (never fuzz bytes: it has a shell escape); LD_LIBRARY_PATH contains only libblocc",
    design="4/C19"),
  "C18": dict(
@@ -161,7 +161,7 @@ CHECKS = {
         "prepare/execute/fetch, typeof(), and by CPython's sqlite3 from the same file. utf8: strings of code points from every plane/boundary; "
         "count/rawsize/string/empty/at(all)/substr/insert(code point|other object|itself)/remove/append/concat/copy against python's decoder over a "
         "boundary lattice of positions. Tolerance scripts call every method of every module with null, negative, huge and malformed arguments "
-        "(invalid UTF-8, unbalanced quotes, closed handles, missing files, wrong tuple arity): value or BLOC error, no sanitizer report, no foreign exception.",
+        "(invalid UTF-8, unbalanced quotes, closed handles, missing files, wrong tuple arity): value or BLOC error, no sanitizer report, no foreign exception. Bulk inserts through one prepared statement (bind/execute per row) are part of the sqlite3 histories.",
    note="trusted: python's bytearray/sqlite3/codecs as independent readers; glibc's initial position in a+ mode is not asserted; NaN is not bound; "
         "libsqlite3 is uninstrumented (its malloc/free/memcpy are intercepted); known finding: utf8 strings drop U+0000",
    design="4/C18"),
@@ -176,7 +176,7 @@ CHECKS = {
         "seeded yields/spins injected at statement boundaries by the step hook, which also logs a global relaxed counter per statement so that "
         "the thread-switch sequence (interleaving signature) is reported. Reference: for every clone and for the original a twin process in which "
         "the original alone runs that body's programs. Checked: per body results, returned values, output bytes, variable and function dump == "
-        "twin; original untouched by the clones; no TSan report with a frame in /repo; no ASan/UBSan report or crash; live contexts == 0 at the end.",
+        "twin; original untouched by the clones; no TSan report with a frame in /repo; no ASan/UBSan report or crash; live contexts == 0 at the end. Every scenario also carries `$` variables, and the answers of texts parsed after cloning are compared with the twin.",
    note="trusted: the twin defines what a clone must compute; TSan only sees races in the interleavings and code that ran (distinct_interleavings in the "
         "evidence); random() programs are run for the race detector only; unparsing a function body through a purged/freed original is not part of the property "
         "(function bodies are compared only while the original is intact)",
@@ -200,7 +200,7 @@ CHECKS = {
         "handler-name combinations, and error-heavy random programs are generated; each runs through Executable::run, bloc_execute and the "
         "statement-at-a-time (CLI-like) route. Which handler ran, error@1, the printed trace, the error reported to the host and final variables must "
         "equal the reference interpreter's; afterwards the hooked state must show control depth 0, exec level 0, no pending break/continue/return, "
-        "no symbol flag, conserved live contexts, and a probe program (retyping iterators, extending tables, new loops) must run correctly.",
+        "no symbol flag, conserved live contexts, and a probe program (retyping iterators, extending tables, new loops) must run correctly. Also: header-error programs (14 loop/condition headers that fail at run time, also with non-catchable errors, x 7 wrappers x 3 routes) judged by residue + probe only.",
    note="trusted: python reference interpreter of the manual's Blocks/Raise sections; error@2 text is not asserted; the CLI route is an emulation of "
         "apps/cli_parser.cpp's statement loop through the public interactive parser (the real bloc -i is exercised by C19)",
    design="4/C07"),
@@ -211,7 +211,7 @@ CHECKS = {
         "including failing bodies and failing argument evaluation; prints, results, caller variables and outcome must equal the reference "
         "interpreter in which every call starts unset; independently a twin pair runs the same target call after a random history and in a fresh "
         "context and must agree; the recursion ladder checks depths 1,2,3,100,254,255 succeed and 256,257,300,1000 raise the recursion-limit error "
-        "(direct and mutual recursion) leaving the context usable; after every run live contexts = root + parse contexts + cached contexts.",
+        "(direct and mutual recursion) leaving the context usable; after every run live contexts = root + parse contexts + cached contexts. Also: fixed twins: hand-written functions aimed at inherited state (nested self-calls in arguments, error record, unset locals, early returns from loops) with every history of one or two calls x every target call, and values that follow from the definitions for the pure ones.",
    note="trusted: python reference interpreter; declared parameter/return types are never relied upon (manual: not enforced); workers run with a 1 GiB stack",
    design="4/C08"),
  "C09": dict(
@@ -222,7 +222,7 @@ CHECKS = {
         "run-time checks are reached) and positions from {-1,0,1,n-1,n,n+1,2^31,2^32,2^32+1,INT64_MAX,INT64_MIN,null}; after every step the deep "
         "dump of all containers is compared with the model (exact content when accepted, unchanged when rejected, index error required for "
         "out-of-range/null positions) and checked for uniformity. forall loops whose body tries to change the iterated table (16 mutators x 3 "
-        "nestings x 4 tables), writes through the iterator (every argument class) and the tab/tup constructors are enumerated.",
+        "nestings x 4 tables), writes through the iterator (every argument class) and the tab/tup constructors are enumerated. Also: second variables with distinguishable elements as insert/concat arguments, element expressions whose value varies between evaluations, copies of tables of tuples.",
    note="trusted: the python model; int/decimal mixing and untyped-null stores may be accepted or rejected (manual silent) but an accepted one must "
         "store the converted / typed-null element; table equality is not asserted",
    design="4/C09"),
